@@ -215,4 +215,52 @@ theorem rank_shift_nonzero_witness :
       (-1/4) 2 = true := by
   decide +kernel
 
+/-! ### Wide square-root factors (any rank, in particular rank > 2·dim)
+
+A Gaussian built under `Gaussian.set_compression_threshold(t)` with `t > 2` keeps a factor wider than the default
+constructor ever leaves it (plate fusion and `Gaussian + Gaussian` concatenate the columns of the parts).  The
+closed forms above never bound the rank: the dense parameters of a concatenated factor are the SUMS of the
+parts' dense parameters, for any widths `r`, `s` — so the log-normaliser of a fused Gaussian is the closed form
+of the summed dense triple, constant `-½(‖w₁‖² + ‖w₂‖²)` included, whatever threshold was active when it was
+built (seeded defect C13_14 drops the constant's compression shift for batched factors wider than `t·dim`). -/
+section Wide
+variable {K : Type*} [CommRing K]
+variable {n r s : Type*} [Fintype r] [Fintype s]
+
+/-- precision of a column-concatenated factor = sum of the parts' precisions -/
+theorem fused_precision (P₁ : Matrix n r K) (P₂ : Matrix n s K) :
+    fromCols P₁ P₂ * (fromCols P₁ P₂)ᵀ = P₁ * P₁ᵀ + P₂ * P₂ᵀ := by
+  rw [transpose_fromCols, fromCols_mul_fromRows]
+
+/-- information vector of a column-concatenated factor = sum of the parts' information vectors -/
+theorem fused_info (P₁ : Matrix n r K) (P₂ : Matrix n s K) (w₁ : r → K) (w₂ : s → K) :
+    fromCols P₁ P₂ *ᵥ Sum.elim w₁ w₂ = P₁ *ᵥ w₁ + P₂ *ᵥ w₂ :=
+  fromCols_mulVec_sumElim P₁ P₂ w₁ w₂
+
+/-- constant of a column-concatenated factor = sum of the parts' constants (`‖w‖²` is additive) -/
+theorem fused_norm2 (w₁ : r → K) (w₂ : s → K) :
+    Sum.elim w₁ w₂ ⬝ᵥ Sum.elim w₁ w₂ = w₁ ⬝ᵥ w₁ + w₂ ⬝ᵥ w₂ :=
+  sumElim_dotProduct_sumElim ..
+
+/-- **wide log-normaliser**: the rational part of the log-normaliser of a fused (arbitrarily wide) factor,
+    `½ ηᵀΛ⁻¹η − ½‖w‖²` with `η = P w`, `Λ = P Pᵀ`, written with the parts: it is the closed form of the summed
+    dense triple and contains the whole `−½(‖w₁‖² + ‖w₂‖²)`; `h` is `1/2`. -/
+theorem fused_log_normalizer [Fintype n] (P₁ : Matrix n r K) (P₂ : Matrix n s K) (w₁ : r → K) (w₂ : s → K)
+    (Λinv : Matrix n n K) (h : K) :
+    h * ((fromCols P₁ P₂ *ᵥ Sum.elim w₁ w₂) ⬝ᵥ (Λinv *ᵥ (fromCols P₁ P₂ *ᵥ Sum.elim w₁ w₂)))
+        - h * (Sum.elim w₁ w₂ ⬝ᵥ Sum.elim w₁ w₂)
+      = h * ((P₁ *ᵥ w₁ + P₂ *ᵥ w₂) ⬝ᵥ (Λinv *ᵥ (P₁ *ᵥ w₁ + P₂ *ᵥ w₂))) - h * (w₁ ⬝ᵥ w₁) - h * (w₂ ⬝ᵥ w₂) := by
+  rw [fused_info, fused_norm2]; ring
+
+end Wide
+
+open FV.C12 FV.C13 in
+/-- rank 3 > 2·dim (dim 1; only reachable under a relaxed compression threshold): `P = [1 1 1]`, `w = (1,0,0)`.
+    The rational part of the model's log-normaliser is `½·1·(1/3)·1 − ½ = −1/3` and `det Λ = 3`; without the
+    compression shift it would be 0 (seeded defect C13_14). -/
+theorem wide_rank_shift_nonzero_witness :
+    okIs (logNormalizer? { dim := 1, rank := 3, w := fun j => if j = 0 then 1 else 0, P := fun _ _ => 1 })
+      (-1/3) 3 = true := by
+  decide +kernel
+
 end FV.Props.C13
